@@ -22,7 +22,7 @@ META = dict(
           "(json.dump refuses numpy float32).",
     trusted="z3; argparse's own parsing of argv into the namespace (its declared option table is read from the real parser object); the csv / json / print "
             "formatting of accepted values",
-    bounds=dict(quick="1 input file x 3 output modes x all declared categorical choices x flags; 2 input files in print and JSON mode", thorough="2 input files everywhere, directory input"),
+    bounds=dict(quick="1 input file x 3 output modes x all declared categorical choices x flags; 2 input files (same file name in two directories) in print and JSON mode", thorough="2 input files everywhere, directory input"),
     outside="text formatting of numbers; equality with an API run on real files is the replay step (seeded real CLI run vs API run), not the solver step",
     stubs=["argparser.parse_args = symbolic namespace", "Continuum.from_csv / from_rttm / compute_gamma, dissimilarity and sampler classes = spies",
            "GammaResults = the real class over alignments with float32-tagged symbolic disorders", "print / csv.writer / json.dump / open / np.random.seed = channels"],
